@@ -104,5 +104,32 @@ pub proof fn witness_docchange() {
     let p = Position { line: 0, character: 0 };
     assert(pos_le(p, p));
 }
+// ---------- the last link of C03: an error becomes a published diagnostic
+// R7 stand-ins: lsp_types::Diagnostic (same public fields), DiagnosticSeverity (newtype with its ERROR constant), the remaining field types opaque
+pub struct DiagnosticSeverity(pub i32);
+impl DiagnosticSeverity { pub const ERROR: DiagnosticSeverity = DiagnosticSeverity(1); }
+#[verifier::external_body] pub struct NumberOrString { pub opaque: u8 }
+#[verifier::external_body] pub struct CodeDescription { pub opaque: u8 }
+#[verifier::external_body] pub struct DiagnosticRelatedInformation { pub opaque: u8 }
+#[verifier::external_body] pub struct DiagnosticTag { pub opaque: u8 }
+#[verifier::external_body] pub struct JsonValue { pub opaque: u8 }
+pub struct Diagnostic { pub range: PosRange, pub severity: Option<DiagnosticSeverity>, pub code: Option<NumberOrString>, pub code_description: Option<CodeDescription>, pub source: Option<String>,
+    pub message: String, pub related_information: Option<Vec<DiagnosticRelatedInformation>>, pub tags: Option<Vec<DiagnosticTag>>, pub data: Option<JsonValue> }
+/// what `Display` renders for an error message is named, not modelled
+pub uninterp spec fn message_text_of(m: ErrorMessage) -> Seq<char>;
+#[verifier::external_body]
+pub fn message_text(m: &ErrorMessage) -> (r: String)
+    ensures r@ == message_text_of(*m),
+{ unimplemented!() }
+//@extract lsp4spl/src/document.rs :: fn create_diagnostic
+//@ rewrite message_to_string
+//@ ret d
+//@ sig
+    requires text_fits(text@),
+    ensures
+        d.range.start == pos_of(err.0.start, text@) && d.range.end == pos_of(err.0.end, text@), //# create_diagnostic::on_the_error_s_range_as_lsp_positions
+        d.severity == Some(DiagnosticSeverity(1)) && d.message@ == message_text_of(err.1), //# create_diagnostic::an_error_with_the_message_of_its_rule
+//@end
+
 }
 fn main() {}
